@@ -1,12 +1,15 @@
-(* C13, first clause: visualize is total on what the dumper writes (the row generator, show = all, show = untrusted).
+(* C13, first clause: visualize is total on what the dumper writes (the row generator and every show mode).
    1. ranks: the tree get_tree builds from a state get_state emitted is `good` (every node of an object sits strictly
       above the nodes of, or references to, its parts), by induction over the C05 fragment (vok_good);
    2. graph: a ranked tree has bounded depth through references and no cycle (good_fits), every reference of any tree
       get_tree builds resolves (root_refs_resolve); the audit of every node completes and does not depend on the fuel left
       or the ids on the stack (unsafe_total, unsafe_indep);
    3. walk yields, without error, a pre-order forest in which a fully safe row has only fully safe rows below it (walk_ok);
-   4. _traverse_tree accepts such a forest whenever hidden rows are exactly fully safe rows (forest_lvl): show = all and
-      show = untrusted; show = trusted is refuted in coq/props/C13.v (D24). *)
+      the root row comes first and everything after it lies below it (node_shape);
+   4. _traverse_tree (with hidden_level, D24 repaired) accepts every pre-order stream under every filter
+      (WalkFacts.traverse_preorder) and prints the forest with the subtrees of hidden rows cut off (WalkFacts.shown_forest):
+      everything for show = all, exactly the not-fully-safe rows for show = untrusted (safe-closedness), the rows whose
+      ancestors below the root and themselves are self-safe for show = trusted. *)
 From Skv Require Import PyStrFacts CodecGuards CodecWfFacts PyValInd NodeInd TreeIds TreeWf GraphAudit ConstructFacts Families.
 From Skv Require Import CodecMemberFacts CodecTreeFacts CodecShareFacts CodecFacts CodecRootFacts.
 From Skv Require Import Unsafe UnsafeFacts AuditFacts Walk WalkFacts.
@@ -1329,6 +1332,23 @@ Section WalkTotal.
           rewrite (unsafe_indep E T R ND (S k) (Node h subs) Hs Hf unsafe_fuel f [] p Hku Hfk (harmless_nil R _) Hpp) in Hu0.
           rewrite Hu in Hu0. injection Hu0 as <-. constructor; [reflexivity|exact (HK3 f p Hfk Hpp Hu)].
     Qed.
+
+    (* the root row of the node comes first; everything after it is what its children yield *)
+    Lemma node_shape name last : exists r,
+      fst (walk E T skipped R (S fuel) path name level last (Node h subs)) = r :: fst (kids_of fuel path level h subs)
+      /\ r_level r = level.
+    Proof.
+      pose proof (Hnice h subs Hs) as Hn.
+      destruct (node_format_ok _ _ Hn) as [val NF]. destruct (self_safe_ok E T h subs Hn) as [ss SS].
+      destruct (unsafe_total E T R Hnice (S k) (Node h subs) Hs Hf eq_refl unsafe_fuel [] Hku) as [u0 Hu0].
+      rewrite walk_node_eq, NF. cbn [s_lift]. rewrite SS. cbn [s_lift].
+      destruct (kind_eqb (h_kind h) KJson) eqn:KJ.
+      - assert (K : h_kind h = KJson) by (destruct (h_kind h); try discriminate KJ; reflexivity). rewrite K. cbn [s_lift s_cons fst].
+        eexists. split; reflexivity.
+      - assert (HU : (match h_kind h with KJson => Ok [] | _ => unsafe E T R (Node h subs) end) = Ok u0)
+          by (unfold unsafe; rewrite Hu0; destruct (h_kind h); try reflexivity; discriminate KJ).
+        rewrite HU. cbn [s_lift s_cons fst]. eexists. split; reflexivity.
+    Qed.
   End Step.
 
   Lemma walk_ok : forall k, walk_spec k.
@@ -1344,6 +1364,17 @@ Section WalkTotal.
       apply (H2 f p); [lia|eapply harmless_ref; eauto|exact Hu].
     - (* a leaf that is not raw JSON yields nothing *)
       destruct l; try discriminate Hl; cbn [walk]; (split; [split; [reflexivity|constructor]|intros; constructor]).
+  Qed.
+  (* the stream of a node: its own row, then a forest one level deeper *)
+  Lemma walk_root_shape k h subs fuel path name level last :
+    sub (Node h subs) R -> fits R (S k) (Node h subs) -> (S k <= unsafe_fuel)%nat -> (k <= fuel)%nat -> harmless R path (Node h subs) ->
+    exists r kids, fst (walk E T skipped R (S fuel) path name level last (Node h subs)) = r :: kids
+      /\ r_level r = level /\ wforest (S level) kids.
+  Proof.
+    intros Hs Hf Hku Hle Hp.
+    destruct (node_shape k h subs Hs Hf Hku fuel path level name last) as [r [A B]].
+    destruct (kids_ok k (walk_ok k) h subs Hs Hf Hku fuel path level Hle Hp) as [[_ W] _].
+    exists r, (fst (kids_of fuel path level h subs)). auto.
   Qed.
 End WalkTotal.
 
@@ -1493,80 +1524,21 @@ Proof.
 Qed.
 
 (* ================= _traverse_tree on a pre-order forest ================= *)
-Fixpoint lvl_ok (sh : show_mode) (prev : nat) (rows : list row) : Prop :=
-  match rows with
-  | [] => True
-  | r :: rs => if visible sh r then (r_level r <= S prev)%nat /\ lvl_ok sh (r_level r) rs else lvl_ok sh prev rs
-  end.
-Fixpoint last_vis (sh : show_mode) (prev : nat) (rows : list row) : nat :=
-  match rows with
-  | [] => prev
-  | r :: rs => if visible sh r then last_vis sh (r_level r) rs else last_vis sh prev rs
-  end.
-
-Lemma traverse_lvl sh : forall rows prev, lvl_ok sh prev rows -> traverse sh prev rows None = Ok (filter (visible sh) rows).
+(* the flat rows of a completed walk, as a forest *)
+Lemma wforest_forest L rows : wforest L rows -> exists f, flat f = rows /\ levelled L f /\ safe_closed f.
 Proof.
-  induction rows as [|r rs IH]; intros prev H; [reflexivity|]. cbn [lvl_ok traverse filter] in *.
-  destruct (visible sh r); cbn [negb]; [|apply IH; exact H]. destruct H as [H1 H2].
-  replace (Nat.ltb (S prev) (r_level r)) with false by (symmetry; apply Nat.ltb_ge; exact H1).
-  rewrite (IH _ H2). reflexivity.
+  induction 1 as [L|L r kids rest Hl Hk [fk [Ek [Lk Sk]]] Hs Hr [fr [Er [Lr Sr]]]]; [exists FNil; repeat split|].
+  exists (FTree r fk fr). cbn [flat levelled safe_closed]. rewrite Ek, Er. repeat split; assumption.
 Qed.
 
-Lemma lvl_ok_app sh : forall a prev b, lvl_ok sh prev a -> lvl_ok sh (last_vis sh prev a) b -> lvl_ok sh prev (a ++ b).
+(* every show mode: the root row, then the forest below it with the subtrees of hidden rows cut off *)
+Lemma traverse_all_forest sh st r f : snd st = None -> fst st = r :: flat f -> levelled (S (r_level r)) f ->
+  traverse_all sh st = Ok (r :: flat (prune sh f)).
 Proof.
-  induction a as [|r a IH]; intros prev b Ha Hb; [exact Hb|]. cbn [app lvl_ok last_vis] in *.
-  destruct (visible sh r); [destruct Ha as [H1 H2]; split; [exact H1|apply IH; assumption]|apply IH; assumption].
-Qed.
-Lemma last_vis_app sh : forall a prev b, last_vis sh prev (a ++ b) = last_vis sh (last_vis sh prev a) b.
-Proof. induction a as [|r a IH]; intros prev b; [reflexivity|]. cbn [app last_vis]. destruct (visible sh r); apply IH. Qed.
-Lemma invisible_skip sh : forall a prev, Forall (fun x => visible sh x = false) a -> lvl_ok sh prev a /\ last_vis sh prev a = prev.
-Proof.
-  induction a as [|r a IH]; intros prev H; [split; [exact I|reflexivity]|]. inversion H as [|? ? Hr Ha]; subst.
-  cbn [lvl_ok last_vis]. rewrite Hr. apply IH. exact Ha.
-Qed.
-
-(* a hidden row is a fully safe row, and fully safe rows are hidden: holds of show = all and show = untrusted, not of show = trusted *)
-Definition sh_ok (sh : show_mode) : Prop :=
-  forall r, visible sh r = false -> r_safe r = true /\ forall x, r_safe x = true -> visible sh x = false.
-Lemma sh_ok_all : sh_ok ShowAll.
-Proof. intros r H. discriminate H. Qed.
-Lemma sh_ok_untrusted : sh_ok ShowUntrusted.
-Proof.
-  intros r H. cbn [visible] in H. apply negb_false_iff in H. split; [exact H|]. intros x Hx. cbn [visible]. rewrite Hx. reflexivity.
-Qed.
-
-Lemma forest_lvl sh : sh_ok sh -> forall L rows, wforest L rows -> forall prev, (L <= S prev)%nat ->
-  lvl_ok sh prev rows /\ (L <= S (last_vis sh prev rows))%nat.
-Proof.
-  intros Hsh L rows H. induction H as [L|L r kids rest Hl Hk IHk Hs Hr IHr]; intros prev Hp; [split; [exact I|exact Hp]|].
-  cbn [lvl_ok last_vis]. destruct (visible sh r) eqn:V.
-  - rewrite Hl. destruct (IHk L (le_n _)) as [K1 K2]. destruct (IHr (last_vis sh L kids) ltac:(lia)) as [R1 R2].
-    rewrite last_vis_app. split; [split; [exact Hp|apply lvl_ok_app; assumption]|exact R2].
-  - destruct (Hsh r V) as [Hsafe Hhide].
-    assert (Hinv : Forall (fun x => visible sh x = false) kids).
-    { eapply Forall_impl; [|exact (Hs Hsafe)]. intros x Hx. apply Hhide. exact Hx. }
-    destruct (invisible_skip sh kids prev Hinv) as [K1 K2]. destruct (IHr prev Hp) as [R1 R2].
-    rewrite last_vis_app, K2. split; [apply lvl_ok_app; [exact K1|rewrite K2; exact R1]|exact R2].
-Qed.
-
-Lemma traverse_all_forest sh st r rs : sh_ok sh -> WOK (r_level r) st -> fst st = r :: rs ->
-  traverse_all sh st = Ok (r :: filter (visible sh) rs).
-Proof.
-  intros Hsh [H1 H2] Hf. unfold traverse_all. rewrite Hf, H1. rewrite Hf in H2.
-  inversion H2 as [|L r' kids rest Hl Hk Hs Hr]; subst.
-  assert (Hlv : lvl_ok sh (r_level r) (kids ++ rest)).
-  { destruct (forest_lvl sh Hsh _ _ Hk (r_level r) (le_n _)) as [K1 K2].
-    apply lvl_ok_app; [exact K1|]. apply (forest_lvl sh Hsh _ _ Hr). lia. }
-  rewrite (traverse_lvl sh _ _ Hlv). reflexivity.
-Qed.
-
-(* show modes that agree on the rows below the root give the same result *)
-Lemma traverse_ext sh1 sh2 : forall rows prev tail, Forall (fun x => visible sh1 x = visible sh2 x) rows ->
-  traverse sh1 prev rows tail = traverse sh2 prev rows tail.
-Proof.
-  induction rows as [|r rs IH]; intros prev tail H; [reflexivity|]. inversion H as [|? ? Hr Hrs]; subst.
-  cbn [traverse]. rewrite Hr. destruct (visible sh2 r); cbn [negb]; [|apply IH; exact Hrs].
-  destruct (Nat.ltb (S prev) (r_level r)); [reflexivity|]. rewrite (IH _ _ Hrs). reflexivity.
+  intros H1 Hf Hl.
+  destruct (levelled_chain f (S (r_level r)) (r_level r) Hl (le_n _)) as [Hc _].
+  destruct (traverse_all_preorder sh st r (flat f) Hf Hc) as [A _]. rewrite A, H1.
+  destruct (shown_forest sh f (S (r_level r)) None Hl I) as [B _]. rewrite B. reflexivity.
 Qed.
 
 (* ================= ranked trees (good) have bounded depth through references ================= *)
@@ -1614,9 +1586,6 @@ End GoodGraph.
 Lemma fuel_bounds : (default_fuel <= 400)%nat /\ (801 <= walk_fuel)%nat /\ (801 <= unsafe_fuel)%nat.
 Proof. repeat split; apply Nat.leb_le; vm_compute; reflexivity. Qed.
 
-Lemma filter_all {A} (l : list A) : filter (fun _ => true) l = l.
-Proof. induction l as [|x l IH]; [reflexivity|]. cbn [filter]. rewrite IH. reflexivity. Qed.
-
 Section Dumped.
   Variables (F : cfacts) (D : denv) (base : Z) (v : pval) (E : env) (a : archive).
   Hypothesis Hcur : e_cur E = dn_cur D.
@@ -1661,14 +1630,17 @@ Section Dumped.
   Hypothesis Hskip : mem (s "_general.SliceNode") skipped = true.
   Variable T : trust.
 
-  (* the row generator completes; the default sink completes for show = all (every row) and show = untrusted
-     (the root and the rows that are not fully safe) *)
-  Theorem visualize_total_dumped : exists r rs,
-    visualize_rows E skipped (a_schema a) T = Ok (r :: rs)
-    /\ visualize E skipped (a_schema a) T ShowAll = Ok (r :: rs)
-    /\ visualize E skipped (a_schema a) T ShowUntrusted = Ok (r :: filter (fun x => negb (r_safe x)) rs)
-    /\ r_level r = O
-    /\ (Forall (fun x => r_self_safe x = true) rs -> visualize E skipped (a_schema a) T ShowTrusted = Ok (r :: rs)).
+  (* the row generator completes with the root row (level 0) followed by a pre-order forest f of rows at levels >= 1 in
+     which fully safe rows have only fully safe rows below them; the default sink completes for EVERY show mode and prints
+     the root row and the forest with the subtrees of hidden rows cut off: all of it for show = all, exactly the rows that
+     are not fully safe for show = untrusted, the self-safe rows all of whose ancestors in f are self-safe for show = trusted *)
+  Theorem visualize_total_dumped : exists r f,
+    visualize_rows E skipped (a_schema a) T = Ok (r :: flat f)
+    /\ r_level r = O /\ levelled 1 f /\ safe_closed f
+    /\ (forall sh, visualize E skipped (a_schema a) T sh = Ok (r :: flat (prune sh f)))
+    /\ visualize E skipped (a_schema a) T ShowAll = Ok (r :: flat f)
+    /\ visualize E skipped (a_schema a) T ShowUntrusted = Ok (r :: filter (fun x => negb (r_safe x)) (flat f))
+    /\ visualize E skipped (a_schema a) T ShowTrusted = Ok (r :: flat (prune ShowTrusted f)).
   Proof.
     destruct dumped_tree as [t [m [Hrt [Hgood [Hnl [Hn [Ofun Oid]]]]]]].
     pose proof (root_tree_ids_unique _ _ _ _ Hrt) as ND. pose proof (root_refs_resolve _ _ _ _ Hrt) as Hres.
@@ -1680,19 +1652,19 @@ Section Dumped.
     set (t := Node h subs) in *.
     set (st := walk E T skipped t walk_fuel [] (s "root") 0 false t).
     assert (Hst : visualize_stream E skipped (a_schema a) T = Ok st) by (unfold visualize_stream; rewrite Hrt; reflexivity).
-    destruct (walk_ok E T skipped t ND Hnice Hskip 801 t (sub_refl _) Hfit eq_refl B3 walk_fuel [] (s "root") 0%nat false B2 (harmless_nil t t)) as [[W1 W2] _].
-    fold st in W1, W2.
-    destruct (fst st) as [|r rs] eqn:Hfst; [exfalso; apply (walk_node_nonempty E T skipped t walk_fuel [] (s "root") 0%nat false h subs W1); exact Hfst|].
-    assert (Hr0 : r_level r = O) by (inversion W2; assumption).
-    assert (HW : WOK (r_level r) st) by (rewrite Hr0; split; [exact W1|rewrite Hfst; exact W2]).
-    assert (HAll : visualize E skipped (a_schema a) T ShowAll = Ok (r :: rs)).
-    { unfold visualize. rewrite Hst. cbn [bind]. rewrite (traverse_all_forest ShowAll st r rs sh_ok_all HW Hfst).
-      change (visible ShowAll) with (fun _ : row => true). rewrite filter_all. reflexivity. }
-    exists r, rs. split; [|split; [exact HAll|split; [|split; [exact Hr0|]]]].
+    destruct (walk_ok E T skipped t ND Hnice Hskip 801 t (sub_refl _) Hfit eq_refl B3 walk_fuel [] (s "root") 0%nat false B2 (harmless_nil t t)) as [[W1 _] _].
+    fold st in W1.
+    assert (Hwf : walk_fuel = S (Nat.pred walk_fuel)) by lia.
+    destruct (walk_root_shape E T skipped t ND Hnice Hskip 800 h subs (Nat.pred walk_fuel) [] (s "root") 0%nat false
+                (sub_refl _) Hfit B3 ltac:(lia) (harmless_nil t t)) as [r [kids [Hfst [Hr0 Hkids]]]].
+    rewrite <- Hwf in Hfst. fold t in Hfst. fold st in Hfst.
+    destruct (wforest_forest _ _ Hkids) as [f [Ef [Lf Sf]]]. subst kids.
+    assert (Hsh : forall sh, visualize E skipped (a_schema a) T sh = Ok (r :: flat (prune sh f))).
+    { intros sh. unfold visualize. rewrite Hst. cbn [bind]. apply traverse_all_forest; [exact W1|exact Hfst|rewrite Hr0; exact Lf]. }
+    exists r, f. split; [|split; [exact Hr0|split; [exact Lf|split; [exact Sf|split; [exact Hsh|split; [|split]]]]]].
     - unfold visualize_rows. rewrite Hst. cbn [bind]. rewrite W1, Hfst. reflexivity.
-    - unfold visualize. rewrite Hst. cbn [bind]. rewrite (traverse_all_forest ShowUntrusted st r rs sh_ok_untrusted HW Hfst). reflexivity.
-    - intros Hall. rewrite <- HAll. unfold visualize. rewrite Hst. cbn [bind]. unfold traverse_all. rewrite Hfst.
-      rewrite (traverse_ext ShowTrusted ShowAll rs (r_level r) (snd st)); [reflexivity|].
-      eapply Forall_impl; [|exact Hall]. intros x Hx. cbn [visible]. exact Hx.
+    - rewrite Hsh, prune_all. reflexivity.
+    - rewrite Hsh, (prune_untrusted f Sf). reflexivity.
+    - apply Hsh.
   Qed.
 End Dumped.
